@@ -776,7 +776,7 @@ ModelStep(pre, in) ==
        hasTrace |-> TRUE, perAction |-> r.trace,
        hasQ |-> in.t = "admin",
        q |-> QueryView(r.st),
-       x |-> [exportOk |-> TRUE, validateOk |-> TRUE, initOk |-> TRUE, sameExport |-> TRUE, fullOk |-> TRUE],
+       x |-> [exportOk |-> TRUE, validateOk |-> TRUE, initOk |-> TRUE, sameExport |-> TRUE, fullOk |-> TRUE, sameBeh |-> TRUE],
        hasBig |-> FALSE, big |-> [esc |-> <<0>>, orb |-> <<0>>, dust |-> <<0>>, F1 |-> <<0>>, F2 |-> <<0>>, U |-> <<0>>],
        hasDiff |-> isRecv \/ in.t \in {"ackpkt", "timeout"},
        diff |-> [ackEq |-> TRUE, eventsEq |-> TRUE, stateEq |-> TRUE, appVersionEq |-> TRUE],
